@@ -1429,6 +1429,10 @@ class Engine:
             for s2, e in self.ev(node.args[0], s):
                 old_mem = recv.mem
                 nv = AbsSet(lambda t, _m=old_mem, _e=e: b_or(_m(t), v_eq(t, _e)), False)
+                try:
+                    nv._root = getattr(recv, '_root', recv)      # the set object this value is a later state of
+                except AttributeError:
+                    pass
                 self.assumptions_used.add('set.add on an abstract set: membership afterwards = membership before or equality with the added element')
                 for s3 in self.assign(node.func.value, nv, s2, node):
                     out.append((s3, None))
@@ -1768,7 +1772,8 @@ class Engine:
                 for i_, a_ in enumerate(args):
                     if isinstance(a_, AbsSet) and i_ < len(pnames) and i_ < len(getattr(node, 'args', [])) and isinstance(node.args[i_], ast.Name):
                         fin = s2.env.get(pnames[i_])
-                        if isinstance(fin, AbsSet) and fin is not a_:
+                        # (only a later state of the SAME set object: a parameter re-bound to another set is the callee's own business)
+                        if isinstance(fin, AbsSet) and fin is not a_ and getattr(fin, '_root', None) is getattr(a_, '_root', a_):
                             back[node.args[i_].id] = fin
                 # every path of the callee continues with its OWN copy of the caller's locals
                 s2.env = dict(saved_env)
